@@ -164,6 +164,20 @@ def main(tier="quick"):
     t6 = not bad
     print("%-34s %s   (%d evidence files validated%s)" % ("evidence schema", "ok" if t6 else "FAILED", len(files), "" if t6 else ": " + "; ".join(bad[:3])))
     ok &= t6
+    # ---- (f) the TLAPS proofs of the index facts (all sizes) go through
+    from . import proofs
+    for mod in proofs.MODULES:
+        pr = proofs.prove(mod)
+        if not pr["ok"]:
+            pr = proofs.prove(mod, stretch=4)
+        print("%-34s %s   (%d of %d obligations proved, %.0f s%s)" % ("TLAPS " + mod, "ok" if pr["ok"] else "FAILED", pr["proved"], pr["obligations"],
+                                                                  pr["wall_s"], "" if pr["ok"] else ": " + pr["tail"][:200]))
+        ok &= pr["ok"]
+    # ... and are about the definitions: the symmetric extension with the whole-sample fold must lose its proofs
+    mut = proofs.prove("IdxProofs", mutate=("IN  IF u < N THEN u ELSE 2 * N - 1 - u", "IN  IF u < N THEN u ELSE 2 * N - 2 - u"))
+    t7 = (not mut["ok"]) and mut["failed"] > 0
+    print("%-34s %s   (whole-sample fold in SrcExt('symmetric'): %s of %s obligations fail)" % ("TLAPS binding", "ok" if t7 else "FAILED", mut["failed"], mut["obligations"]))
+    ok &= t7
     for m in rep.machinery[:5]:
         print("machinery:", m)
     ok &= not rep.machinery
